@@ -131,6 +131,52 @@ def extract(repo):
     except Exception:
         o.fail("subTags", "List Nat", "[]", "sub-tag constants not found")
 
+    # ---- expression shapes whose constants/comparisons the model transcribes (ACK arithmetic, tag bits, checks)
+    def shape(ident, module, pats, note):
+        """all regexes must match (in order of appearance is not required)"""
+        try:
+            src = strip_comments(read(repo, FRAME_DIR + module))
+            okk = all(re.search(p_, src, re.S) for p_ in pats)
+        except Exception:
+            okk = False
+        o.define(ident, "Bool", "true" if okk else "false", note)
+    shape("ackDecodeShape", "ack.rs",
+          [r"ack_range_count\s*\.checked_add\(VarInt::from_u8\(1\)\)\s*\.ok_or\(ACK_RANGE_DECODING_ERROR\)\?",
+           r"for _ in 0\.\.\*ack_range_count \{\s*iter\.next\(\)\.ok_or\(ACK_RANGE_DECODING_ERROR\)\?;",
+           r"self\.ack_range_count = self\.ack_range_count\.checked_sub\(VarInt::from_u8\(1\)\)\?;",
+           r"let start = largest_acknowledged\.checked_sub\(ack_range\)\?;\s*let end = largest_acknowledged;",
+           r"if self\.ack_range_count != VarInt::from_u8\(0\) \{\s*let \(gap, buffer\) = buffer\.decode::<VarInt>\(\)\.ok\(\)\?;\s*"
+           r"self\.largest_acknowledged = largest_acknowledged\s*\.checked_sub\(ack_range\)\?\s*\.checked_sub\(gap\)\?\s*\.checked_sub\(VarInt::from_u8\(2\)\)\?;",
+           r"if tag == ACK_W_ECN_TAG \{"],
+          "ack.rs decoder: count+1 (checked), count iterations, start = largest - range, next largest = largest - range - gap - 2 (all checked), ECN iff tag 0x03")
+    shape("ackEncodeShape", "ack.rs",
+          [r"let first_ack_range = largest_acknowledged - smallest;",
+           r"buffer\.encode\(&largest_acknowledged\);\s*buffer\.encode\(&self\.ack_delay\);\s*buffer\.encode\(&ack_range_count\);\s*buffer\.encode\(&first_ack_range\);",
+           r"let gap = smallest - end - 2;\s*let ack_range = end - start;\s*buffer\.encode\(&gap\);\s*buffer\.encode\(&ack_range\);\s*start"],
+          "ack.rs encoder: field order, first = largest - smallest, gap = smallest - end - 2, range = end - start")
+    shape("streamDecodeShape", "stream.rs",
+          [r"let has_offset = tag & OFF_BIT == OFF_BIT;", r"let is_last_frame = tag & LEN_BIT != LEN_BIT;", r"let is_fin = tag & FIN_BIT == FIN_BIT;",
+           r"if \*self\.offset != 0 \{\s*tag \|= OFF_BIT;", r"if !self\.is_last_frame \{\s*tag \|= LEN_BIT;", r"if self\.is_fin \{\s*tag \|= FIN_BIT;",
+           r"if \*self\.offset != 0 \{\s*buffer\.encode\(&self\.offset\);"],
+          "stream.rs: OFF/LEN/FIN tests in decode, tag() and encode (offset omitted iff 0, length omitted iff is_last_frame)")
+    shape("datagramShape", "datagram.rs",
+          [r"let is_last_frame = tag & LEN_BIT != LEN_BIT;", r"if !self\.is_last_frame \{\s*tag \|= LEN_BIT;"],
+          "datagram.rs: LEN bit <=> !is_last_frame")
+    shape("connectionCloseShape", "connection_close.rs",
+          [r"if tag == QUIC_ERROR_TAG \{\s*let \(frame_type, buffer\) = buffer\.decode\(\)\?;", r"let reason = if reason\.is_empty\(\) \{\s*None",
+           r"if self\.frame_type\.is_some\(\) \{\s*QUIC_ERROR_TAG\s*\} else \{\s*APPLICATION_ERROR_TAG",
+           r"\} else \{\s*buffer\.encode\(&0u8\);"],
+          "connection_close.rs: frame type field iff 0x1c; empty reason <-> None (encoded as a single 0 byte)")
+    shape("newTokenShape", "new_token.rs", [r"decoder_invariant!\(!token\.is_empty\(\), \"empty Token field\"\);"],
+          "new_token.rs: empty token rejected")
+    shape("paddingShape", "padding.rs",
+          [r"\.map\(\|v\| v == padding_tag!\(\)\)\s*\.unwrap_or\(false\)\s*\{\s*length \+= 1;\s*\}", r"let buffer = buffer\.skip\(length\)[^;]*;\s*length \+= 1;",
+           r"encoder\.write_repeated\(self\.length, 0\)"],
+          "padding.rs: run of zero bytes, length counts the tag byte, encoder writes `length` zero bytes")
+    shape("dcTokensShape", "dc_stateless_reset_tokens.rs",
+          [r"count > VarInt::ZERO,", r"count <= MAX_STATELESS_RESET_TOKEN_COUNT,", r"_from_prefix_with_elems"],
+          "dc_stateless_reset_tokens.rs: 0 < count <= MAX, then count tokens")
+
     # ---- frames allowed per packet space (for C04): handlers a space overrides + what the trait allows by default
     try:
         sp = strip_comments(read(repo, SPACE_DIR + "mod.rs"))
